@@ -21,6 +21,7 @@ EXPLANATION = ("Structural rules over Scale.filter, Impute.filter and the Enviro
                "(package-wide); loop-carried names in fluent methods are threaded; Impute's statistic filter (is not None) is "
                "the negation of its replacement test (is None) in all container arms.")
 EXPLANATION += " R8: Scale/Impute store nothing on the shared filter object; R9: iqr's constant shortcut only for n <= 1."
+EXPLANATION += ' R6 also: NaN dropped before fitting, scale computed with the shift that reaches it (reaching definitions), no dunder arithmetic; R10: apply loops skip None / need a statistic in every arm.'
 
 EF = "coba/environments/filters.py"
 EC = "coba/environments/core.py"
